@@ -24,10 +24,14 @@ for line in open(summary):
             det[m.group(1)] = {"exit": int(m.group(2)), "rules": [x for x in m.group(3).split(",") if x]}
     rows.append((sid, det))
 out = ["# Detection matrix" if KIND == "seeded" else "# False-alarm matrix (independent behaviour-preserving refactorings)", "",
-       f"Every registered quick check was run against every seeded change (patch applied to a scratch worktree of /repo at "
-       f"`{repo_head}`, checks from /verif commit `{verif_commit}`, `tools/detect_matrix.sh`). A cell lists the checks that "
-       f"exited 1 and the rules that reported; all other checks exited 0 (no cross-alarms). `—` = not detected: the change "
-       f"is numeric / positional / in emitted control flow (see DESIGN.md §5 'not decided').", "",
+       (f"Every registered quick check was run against every seeded change (patch applied to a scratch worktree of /repo at "
+        f"`{repo_head}`, checks from /verif commit `{verif_commit}`, `tools/detect_matrix.sh`). A cell lists the checks that "
+        f"exited 1 and the rules that reported; all other checks exited 0 (no cross-alarms). `—` = not detected: the change "
+        f"is numeric / positional / in emitted control flow (see DESIGN.md §5 'not decided')." if KIND == "seeded" else
+        f"Every registered quick check was run against every behaviour-preserving refactoring written by an independent "
+        f"sub-agent (patch applied to a scratch worktree of /repo at `{repo_head}`, checks from /verif commit "
+        f"`{verif_commit}`, `SRC=benign tools/detect_matrix.sh`). `—` is the expected outcome: every check exited 0. A cell "
+        f"lists the checks that did not."), "",
        "| Seed | Property | Checks that fail (rules) | Summary of the change |", "|---|---|---|---|"]
 caught = 0
 for sid, det in rows:
@@ -48,7 +52,7 @@ if KIND == "seeded":
     out += ["", f"Detected: {caught} of {len(rows)}."]
 else:
     out += ["", f"Silent on all checks: {len(rows) - caught} of {len(rows)}. A non-empty cell is explained in the patch's meta.json "
-                f"(`note`) and in DESIGN.md section 8 (round 4): C19_b3 and C19_b4 move a recorded defect to a new function / "
+                f"(`note`) and in DESIGN.md section 8 (round 4): C14_b1, C19_b3 and C19_b4 move a recorded defect to a new function / "
                 f"callee, which exact-key suppression reports by design."]
 open(os.path.join(HERE, KIND, "MATRIX.md"), "w").write("\n".join(out) + "\n")
 print(f"detected {caught}/{len(rows)}")
